@@ -60,7 +60,9 @@ def actions_for(quick):
     def f(s):
         if s['kind'] in ('T', 'PT'):
             return ['terminate']
-        return ['terminate', 'sigkill'] if quick else ['terminate', 'sigkill', 'sigterm']
+        # interrupt: KeyboardInterrupt raised at the landing point, what SIGINT (Ctrl-C reaches the whole process group) does to the
+        # main thread of a child: a BaseException ending the work from any line
+        return ['terminate', 'sigkill', 'interrupt'] if quick else ['terminate', 'sigkill', 'sigterm', 'interrupt']
     return f
 
 
@@ -104,6 +106,9 @@ def expected(case):
     acc = list(own) + [(True, None, WTE)]
     if any(e['action'] in ('sigkill', 'sigterm') for e in (case.get('events') or [])) or len(case.get('events') or []) > 1:
         acc.append((True, None, None))
+    if any(e['action'] == 'interrupt' for e in (case.get('events') or [])):
+        # the ending's own outcome, the BaseException itself, or nothing reportable - never a WorkerTerminatedError nobody asked for
+        acc = list(own) + [(True, None, {'exc': 'KeyboardInterrupt', 'args': []}), (True, None, None)]
     if t == 'p_poison':
         acc += [(True, None, {'exc': 'ValueError', 'args': ['poison', 99]})]
     return acc
@@ -270,5 +275,5 @@ def replay(ctx, rec):
     v = judge(case, obs)
     print('replayed:', {k: obs.get(k) for k in ('death', 'rounds', 'terminate_ret', 'landed', 'stage')})
     print('verdict:', v)
-    if v and v[0] not in ('harness', 'beyond-end'):
+    if v and v[0] not in ('harness', 'beyond-end', 'not-dead', 'killed-before-the-constructor-returned'):
         ctx.violation(rec['signature'], c, {'rounds': obs.get('rounds')}, rec.get('expected'), engine='LAND')
